@@ -396,9 +396,14 @@ class JsonHistoryFlusher(threading.Thread):
         try:
             with open(self.filename, newline="\n", encoding="utf-8") as f:
                 hist = xlj.LazyJSON(f).load()
-        except (JSONDecodeError, ValueError, OSError):
-            # File is corrupted or unreadable - start with empty history
+        except (JSONDecodeError, ValueError, FileNotFoundError):
+            # File is corrupted or does not exist yet - start with empty history
             hist = {"cmds": [], "sessionid": "", "ts": [time.time(), 0], "locked": True}
+        except OSError as err:
+            # The file could not be read right now (EIO, EMFILE, ...): writing
+            # would replace everything saved in it by the buffer alone.
+            print(f"history: failed to read {self.filename!r}: {err}", file=sys.stderr)
+            return
         load_hist_len = len(hist["cmds"])
         hist["cmds"].extend(cmds)
         if self.at_exit:
